@@ -185,7 +185,13 @@ def correspondence(ctx):
                             dis.append(f"{op} {key} mixed numpy/object pairing differs from object result")
                         continue
                     vals = [bool(x) for x in vals]
-                    if vals != ref:
+                    # "same-geometry" operands in DIFFERENT systems are equal only up to rounding of the conversions: object arithmetic
+                    # (x*x) and array arithmetic (numpy.power) may differ in the last bit, so == there is compared within one backend only
+                    backend = name.split(".")[0]
+                    same_backend_ref = [bool(x) for x in fs[backend + ".method"]] if backend + ".method" in fs else ref
+                    cmp_ref = [sb if cs[i][3] is None else rf for i, (sb, rf) in enumerate(zip(same_backend_ref, ref))]
+                    if vals != cmp_ref:
+                        ref = cmp_ref
                         i = [a != b for a, b in zip(vals, ref)].index(True)
                         dis.append(f"{op} {key} {name} differs from obj.method on case {cs[i][0]}")
                         fails.append(failing(dim, op, name, f1, s1, A[i], f2, s2, B[i]))
